@@ -29,6 +29,11 @@ DELIBERATE = (
 )
 
 
+class SimAbort(BaseException):
+    """Raised by the simulator (never by pygradflow) when a run exceeds the step cap:
+    more trial steps than iteration_limit allows.  Bounds every run; judged by the oracles."""
+
+
 class _Handler(logging.Handler):
     """Formats every record (forces %-interpolation of lazy arguments, like any
     real handler) and keeps a digest; formatting errors are counted, not raised
@@ -101,6 +106,10 @@ class RecordingSolver(Solver):
     def _compute_step(self, controller, iterate, rho, dt, display, timer):
         ex = self._ex
         ex._hook_penalty(self)
+        lim = self.params.iteration_limit
+        cap = (lim + 2) if lim is not None else ex.step_cap
+        if len(ex.trials) >= cap:
+            raise SimAbort("step cap: trial %d requested although iteration_limit=%r" % (len(ex.trials) + 1, lim))
         tr = Trial()
         tr.t = len(ex.trials)
         tr.inp, tr.dt, tr.rho = iterate, dt, rho
@@ -159,6 +168,9 @@ class Execution:
         self.full = Digest()
         self.lin_fired = []
         self.lin_counts = (0, 0, 0)
+        self.step_cap = 20000
+        self.t_begin = None
+        self.aborted = False
 
     def log(self, ev):
         self.events.append(ev)
@@ -350,6 +362,7 @@ def execute(world, *, problem=None, solver=None, params=None, reuse_solver=False
         problem.oob = []
         problem.calls = []
         problem.armed = True
+        ex.t_begin = clock.t
         ex.log(("solve.begin",))
         try:
             r = solver.solve(ex.x0_arg, ex.y0_arg)
@@ -361,7 +374,8 @@ def execute(world, *, problem=None, solver=None, params=None, reuse_solver=False
         ex.result = r
         ex.status = r.status.name
         ex.log(("solve.end", ex.status, r.x.tobytes(), r.y.tobytes(), r.d.tobytes(), int(r.iterations), int(r.num_accepted_steps)))
-    except Exception as e:  # classified by the oracles, never swallowed
+    except (Exception, SimAbort) as e:  # classified by the oracles, never swallowed
+        ex.aborted = isinstance(e, SimAbort)
         ex.exc = e
         ex.exc_type = type(e).__name__
         ex.exc_msg = str(e)
